@@ -44,8 +44,8 @@ SHARD_TIMEOUT = {'quick': 900, 'thorough': 3000}
 BASE = [('10.0.%d.0/24' % i, '192.0.2.1', i % 5) for i in range(8)]
 
 
-def conf(routes, hold=90, api=True, extra='', adjout=True):
-    c = {'hold': hold, 'families': [(1, 1)], 'adjout': adjout, 'api': api, 'group_updates': False, 'route_texts': [f'route {p} next-hop {nh} med {m};' for p, nh, m in routes], 'extra_body': extra}
+def conf(routes, hold=90, api=True, extra='', adjout=True, adjin=None):
+    c = {'hold': hold, 'families': [(1, 1)], 'adjout': adjout, 'adjin': adjin, 'api': api, 'group_updates': False, 'route_texts': [f'route {p} next-hop {nh} med {m};' for p, nh, m in routes], 'extra_body': extra}
     if not adjout:
         c['refresh'] = False  # the route refresh capability switches the Adj-RIB-Out cache back on
     return c
@@ -87,8 +87,9 @@ def change(r: random.Random, kind: str):
 
 def success_case(r, kind, state, api_mode, adjout=True):
     old, new, hold_new = change(r, kind)
-    cfg = conf(old, adjout=adjout)
-    newc = dict(conf(new, hold=hold_new, adjout=adjout))
+    adjin = r.choice([None, False, True])  # the Adj-RIB-In option written out both ways, or left to its default
+    cfg = conf(old, adjout=adjout, adjin=adjin)
+    newc = dict(conf(new, hold=hold_new, adjout=adjout, adjin=adjin))
     new_text = scen.config_text(newc, 0).replace('connect 0;', 'connect @PORT@;')
     api_routes = []
     if api_mode == 'some':
@@ -110,7 +111,7 @@ def success_case(r, kind, state, api_mode, adjout=True):
         for p, nh, m in api_routes:
             steps.append(['api', f'peer * announce route {p} next-hop {nh} med {m}'])
         steps += [['sleep', 0.5], ['wait_quiet', 1.0, 20.0], ['policy', 'reset'], ['eof'], ['sleep', 1.0], ['snapshot', 'before'], ['mark', 'reload'], ['reload', new_text], ['sleep', 2.0], ['policy', 'accept'], ['accept', 60.0], ['mark', 'second'], ['establish'], ['wait_quiet', 2.0, 20.0], ['snapshot', 'after'], ['mark', 'end']]
-    return {'config': cfg, 'steps': steps, 'vtimeout': 400.0, 'wall': 120.0, 'quantum': 0.0005, 'rx_limit': 70000, 'kind': kind, 'state': state, 'api_mode': api_mode, 'old': old, 'new': new, 'api_routes': api_routes, 'expect': 'success', 'adjout': adjout, 'reestablish': hold_new != 90}
+    return {'config': cfg, 'steps': steps, 'vtimeout': 400.0, 'wall': 120.0, 'quantum': 0.0005, 'rx_limit': 70000, 'kind': kind, 'state': state, 'api_mode': api_mode, 'old': old, 'new': new, 'api_routes': api_routes, 'expect': 'success', 'adjout': adjout, 'adjin': adjin, 'reestablish': hold_new != 90}
 
 
 def broken_variants(text: str):
@@ -153,7 +154,11 @@ def failure_cases(r, tier):
         else:
             steps += [['reload', text]]
         steps += [['sleep', 3.0], ['snapshot', 'after'], ['mark', 'after-reload'], ['api', 'peer * announce route 172.16.50.0/24 next-hop 192.0.2.2 med 5'], ['sleep', 0.5], ['wait_quiet', 1.5, 10.0], ['mark', 'end']]
-        out.append({'config': conf(old), 'steps': steps, 'vtimeout': 300.0, 'wall': 100.0, 'quantum': 0.0005, 'fault': fault, 'line': line, 'expect': 'failure-or-success', 'new': new, 'old': old, 'text': text})
+        # the operator repairs the file and reloads again: a refused file may not stand in the way of the next, valid, one
+        if fault == 'file-removed':
+            steps += [['restore_config']]
+        steps += [['mark', 'reload2'], ['reload', good_new], ['sleep', 0.5], ['wait_quiet', 2.0, 20.0], ['snapshot', 'after2'], ['mark', 'end2']]
+        out.append({'config': conf(old), 'steps': steps, 'vtimeout': 300.0, 'wall': 100.0, 'quantum': 0.0005, 'rx_limit': 70000, 'fault': fault, 'line': line, 'expect': 'failure-or-success', 'new': new, 'old': old, 'text': text})
     return out
 
 
@@ -228,7 +233,7 @@ def table_from(sess_rx, t0):
 
 def judge_success(res, case, rec):
     cls = f'{case["kind"]}:{case["state"]}:{case["api_mode"]}' + ('' if case.get('adjout', True) else ':no-adj-rib-out')
-    wit = {k: case[k] for k in ('kind', 'state', 'api_mode', 'old', 'new', 'api_routes', 'adjout')}
+    wit = {k: case.get(k) for k in ('kind', 'state', 'api_mode', 'old', 'new', 'api_routes', 'adjout', 'adjin')}
     wit['notes'] = rec['notes']
     marks = {e['name']: e for e in rec['events'] if e['kind'] == 'mark'}
     snaps = {e['name']: e['snap'] for e in rec['events'] if e['kind'] == 'snapshot'}
@@ -287,6 +292,26 @@ def judge_success(res, case, rec):
         src = 'api' if wrong[0] in api_p else 'config'
         res.violation(f'C17/stale-{field}-after-reload:{src}:{case["kind"]}:{case["state"]}', f'route {wrong[0]} is {got[wrong[0]]} at the peer, the new configuration says {want[wrong[0]]}', wit, cls)
         return
+    # what ExaBGP reports as its Adj-RIB-Out (when it keeps one) is the same table: what the next session, flush or route
+    # refresh will be served from
+    if case.get('adjout', True) and 'after' in snaps:
+        reported = {}
+        for lst in snaps['after']['rib_out'].values():
+            for text in lst:
+                m = re.match(r'^(\S+) next-hop (\S+)(?:.*? med (\d+))?', text)
+                if m:
+                    reported[canon(m.group(1))] = (m.group(2), int(m.group(3)) if m.group(3) else None)
+        rmissing = sorted(p for p in want if p not in reported and p not in collide)
+        rextra = sorted(p for p in reported if p not in want)
+        wit['reported_adj_rib_out'] = sorted(reported.items())[:20]
+        if rmissing:
+            src = 'api' if rmissing[0] in {canon(p) for p, _, _ in case['api_routes']} else 'config'
+            res.violation(f'C17/adj-rib-out-lost-route-after-reload:{src}:{case["state"]}', f'after the reload the Adj-RIB-Out no longer holds {rmissing[:3]} (the peer was sent them: the next session or refresh will not be)', wit, cls)
+            return
+        if rextra:
+            res.violation(f'C17/adj-rib-out-keeps-removed-route:{case["kind"]}:{case["state"]}', f'after the reload the Adj-RIB-Out still holds {rextra[:3]}', wit, cls)
+            return
+        res.ok('reported-adj-rib-out-agrees')
     res.ok(cls, (case['kind'], case['state'], case['api_mode']))
     res.ok('change:' + case['kind'])
     res.ok('state:' + case['state'])
@@ -371,6 +396,26 @@ def judge_failure(res, case, rec):
         return
     if 'done' not in rec['helper_rx'][-400:]:
         res.count('no-done-seen-after-failed-reload')
+    if 'reload2' in marks and 'end2' in marks:
+        second = [e for e in rec['events'] if e['kind'] == 'config-reload' and e['t'] >= marks['reload2']['t']]
+        if not second:
+            res.inconclusive.append(f'{cls}: the second reload was never attempted')
+            return
+        if not second[0]['ok']:
+            res.violation('C17/valid-file-refused-after-a-failed-reload', f'after a failed reload ({case["fault"]}) the repaired, valid file is refused: {second[0]["error"][-160:]!r}', dict(wit, second_error=second[0]['error'][-300:]), cls)
+            return
+        got2, _ = table_from(sess['rx'], 0.0)
+        want2 = {canon(p): (nh, m) for p, nh, m in case['new']}
+        want2['172.16.1.0/24'] = ('192.0.2.2', 9)
+        want2['172.16.50.0/24'] = ('192.0.2.2', 5)
+        if sess['eof_at'] is not None:
+            res.violation('C17/session-lost-on-reload:after-failed-reload', 'the session was closed by the valid reload which followed a failed one', wit, cls)
+            return
+        if got2 != want2:
+            diff = sorted(k for k in set(got2) | set(want2) if got2.get(k) != want2.get(k))
+            res.violation('C17/wrong-table-after-failed-then-valid-reload', f'after a failed reload and then a valid one the peer differs on {diff[:4]}: has {[got2.get(k) for k in diff[:2]]}, should have {[want2.get(k) for k in diff[:2]]}', dict(wit, peer=sorted(got2.items())[:14]), cls)
+            return
+        res.ok('valid-reload-after-failed-one')
     res.ok(cls, (case['fault'], 'line' if case['line'] >= 0 else 'file'))
     res.ok('fault-kind:' + case['fault'].split(':')[0])
     if case.get('failpoint'):
